@@ -80,3 +80,15 @@ FACADE = {
 DEVICE_TYPE_SET = {0x00: "sbc", 0x04: "sbc", 0x07: "sbc", 0x01: "ssc", 0x05: "mmc", 0x08: "smc"}
 PRIMARY_COMMANDS = ["INQUIRY", "TEST_UNIT_READY", "REPORT_LUNS"]
 DEFAULT_SET = "spc"
+
+
+# optional parameters that the documented signatures name explicitly (with defaults), in signature order: a caller may pass
+# them by position right after the required ones
+POSITIONAL_OPTIONALS = {
+    "inquiry": ["evpd", "page_code", "alloclen"],
+    "readdiscinformation": ["alloc_len"],
+    "persistentreserveout": ["scope", "pr_type"],
+    "extendedcopy4": ["list_identifier", "sequential_striped", "nrcr", "priority", "target_descriptor_list", "segment_descriptor_list", "inline_data"],
+    "extendedcopy5": ["sequential_striped", "list_id_usage", "priority", "g_sense", "immed", "list_identifier", "cscd_descriptor_list",
+                      "segment_descriptor_list", "inline_data"],
+}
